@@ -5,6 +5,7 @@ import (
 	"strings"
 
 	"verif/mc"
+	"verif/sched"
 )
 
 // once runs body for the single default execution (alternative 0 at every
@@ -17,6 +18,9 @@ func once(body func(c *mc.Ctx)) mc.Stats {
 func catch(f func()) (panicked string) {
 	defer func() {
 		if e := recover(); e != nil {
+			if fb, ok := e.(sched.ForeignBlock); ok {
+				panic(fb) // not a panic of the implementation: the unit runner records the unit as not decided
+			}
 			panicked = fmt.Sprint(e)
 			if panicked == "" {
 				panicked = "panic"
